@@ -1,5 +1,5 @@
 """C08 - batch results are complete and failed items leave no trace."""
-from .. import common, engcheck as E
+from .. import common, engcheck as E, absmap as A
 
 ONLY = {"C08"}
 
@@ -146,14 +146,25 @@ def placeholder_batches(run, quick):
     failing = [("Get", {"uid": 424242}), ("Activate", {"uid": 424242}), ("Destroy", {"uid": 424242}),
                ("Create", {"otype": "SymmetricKey", "attrs": [{"name": "Cryptographic Algorithm", "v": "AES"}]}),
                ("ModifyAttribute", {"uid": 424242, "attr": {"name": "Name", "idx": 0, "v": "zz"}}),
-               ("Revoke", {"uid": 424242, "code": "KEY_COMPROMISE"}), ("GetAttributes", {"uid": 424242, "names": []})]
+               ("Revoke", {"uid": 424242, "code": "KEY_COMPROMISE"}), ("GetAttributes", {"uid": 424242, "names": []}),
+               # items that get as far as the database before they fail: a value the storage cannot hold (a prime field
+               # size beyond 64 bits), refused by the store at flush time - the unit of work must not stay broken
+               ("Register", {"otype": "SplitKey", "attrs": [{"name": "Cryptographic Usage Mask", "v": ["ENCRYPT"]}],
+                             "obj": {"type": "SplitKey", "val": "k16", "alg": "AES", "len": 128, "fmt": "RAW",
+                                     "prime": A.BIG_PRIME, "smethod": "POLYNOMIAL_SHARING_PRIME_FIELD"}}),
+               ("Register", {"otype": "SymmetricKey", "attrs": [{"name": "Cryptographic Usage Mask", "v": ["ENCRYPT"]}],
+                             "obj": {"type": "SymmetricKey", "val": "k16", "alg": "AES", "len": 192, "fmt": "RAW"}}),
+               ("Destroy", {"uid": 1}), ("Activate", {"uid": 1})]        # object 1 is active: Destroy refused, Activate refused
     later = [[("Activate", {"uid": 0}), ("GetAttributes", {"uid": 0, "names": ["State"]})],
              [("GetAttributeList", {"uid": 0}), ("Destroy", {"uid": 0})],
-             [("Get", {"uid": 0}), ("Revoke", {"uid": 0, "code": "KEY_COMPROMISE"})]]
+             [("Get", {"uid": 0}), ("Revoke", {"uid": 0, "code": "KEY_COMPROMISE"})],
+             [("Create", sym), ("Locate", {"filters": [], "offset": -1, "max": -1})],
+             [("ModifyAttribute", {"uid": 1, "attr": {"name": "Name", "idx": 0, "v": "renamed"}}), ("Get", {"uid": 1})]]
     traces = []
     drv = D.EngineDriver(intern=E.new_interner())
     try:
-        drv.request(D.one("Create", sym))
+        drv.request(D.one("Create", dict(sym, attrs=sym["attrs"] + [{"name": "Name", "idx": 0, "v": "first"}])))
+        drv.request(D.one("Activate", {"uid": 1}))
         snap = drv.db + ".ph"
         drv.snapshot(snap)
         k = 0
@@ -167,7 +178,9 @@ def placeholder_batches(run, quick):
                         f2 = fl
                         if fl[0] == "ModifyAttribute" and ver >= (2, 0):
                             f2 = ("ModifyAttribute", {"uid": 424242, "cur": None, "new": {"name": "Name", "v": "zz"}})
-                        items = [cr, f2] + lt
+                        lt2 = [(o, ({"uid": 1, "cur": {"name": "Name", "v": "first"}, "new": {"name": "Name", "v": "renamed"}}
+                                   if o == "ModifyAttribute" and ver >= (2, 0) else q)) for (o, q) in lt]
+                        items = [cr, f2] + lt2
                         rec.request({"user": "alice", "groups": None, "ver": list(ver), "opt": "Continue",
                                      "items": [{"op": o, "bid": "b%d" % i, "p": dict(p)} for i, (o, p) in enumerate(items)]})
                         rec.close()
